@@ -69,7 +69,8 @@ def _text_cases(draw):
     prefix = draw(st.sampled_from(["EOF", "EOF", "EOF", "E", "END"]))
     fam = [prefix, prefix + "1", prefix + "2", prefix + "3"]
     line = st.one_of(st.sampled_from(fam), st.sampled_from(fam[:2]), st.sampled_from(LINE_TOKENS),
-                     st.sampled_from(LINE_TOKENS), st.text(_line_chars, max_size=8))
+                     st.sampled_from(LINE_TOKENS), st.text(_line_chars, max_size=8),
+                     st.sampled_from(["#!", "#!/bin/sh", "x #!/bin/sh", "echo '#!'", "#! /bin/sh"]))
     return {
         "part": "text",
         "lines": draw(st.lists(line, max_size=10)),
@@ -78,7 +79,7 @@ def _text_cases(draw):
         "trail": draw(blank_st),
         # False = no shebang; True = '#!/bin/cat'; 'space' / 'tab' = the equally valid spellings with
         # whitespace after '#!'
-        "shebang": draw(st.sampled_from([False, False, True, True, "space", "tab"])),
+        "shebang": draw(st.sampled_from([False, False, False, True, True, "space", "tab"])),
         "eof_prefix": prefix,
         "shell": draw(st.sampled_from(["sh", "bash"])),
     }
